@@ -200,12 +200,23 @@ BatchViol(x, batches) ==
                   n == Len(b.recs)
                   present == IF x[b.q].a THEN {j \in 1..n : \E k \in 1..Len(x[b.q].recs) : x[b.q].recs[k] = b.recs[j]}
                              ELSE {}
-              IN present # {} /\ ~(\E k \in 1..n : present = k..n)}}
+                  \* a missing leading part must have been removed by a truncation (or a deletion) that was
+                  \* issued on the queue after the batch: b.tp is the largest such truncate position
+              IN present # {} /\ ~(\E k \in 1..n : present = k..n /\ \A j \in 1..(k - 1) : b.recs[j][1] <= b.tp)}}
 
 BatchOf(qm, call) ==
   LET qs == qm[call.q]
       start == AppendStart(qs, call)
-  IN [q |-> call.q, recs |-> [i \in 1..Len(call.batch) |-> <<start + i - 1, call.batch[i][1], call.batch[i][2]>>]]
+  IN [q |-> call.q, tp |-> -1, recs |-> [i \in 1..Len(call.batch) |-> <<start + i - 1, call.batch[i][1], call.batch[i][2]>>]]
+
+(* a truncate / delete issued on a queue legitimises the loss of leading records of its earlier batches *)
+TruncBatches(batches, call) ==
+  IF call.op \in {"truncate", "delete"} /\ call.q >= 0
+  THEN [i \in 1..Len(batches) |->
+          IF batches[i].q = call.q
+          THEN [batches[i] EXCEPT !.tp = IF call.op = "delete" THEN 1073741823 ELSE QmMax(@, call.p)]
+          ELSE batches[i]]
+  ELSE batches
 
 CrashViol(r, c) ==
   IF r.out # "ok" THEN
@@ -220,7 +231,8 @@ CrashViol(r, c) ==
         ok == r.st.unk = 0 /\ (InPend(x, pend) \/ x \in applied)
         asg2 == IF incall /\ c.cur.op \in {"create", "delete"} /\ c.cur.q >= 0 THEN [c.asg EXCEPT ![c.cur.q] = -1] ELSE c.asg
         batches2 == IF incall /\ c.cur.op = "append" /\ ~IsRejectOrNoop(c.qm, c.cur)
-                    THEN Append(c.batches, BatchOf(c.qm, c.cur)) ELSE c.batches
+                    THEN Append(c.batches, BatchOf(c.qm, c.cur))
+                    ELSE IF incall THEN TruncBatches(c.batches, c.cur) ELSE c.batches
     IN  (IF ~ok /\ AlwaysPolicy(c.policy) /\ r.model = "process"
          THEN {<<"C02", "recovered state is not completed ops + all-or-none of the in-flight one">>} ELSE {})
    \cup (IF ~ok THEN {<<"C03", "recovered state is older than the last persisted point (" \o r.model \o ")">>} ELSE {})
@@ -426,10 +438,17 @@ TrEnd ==
                   \cup (IF hasSt THEN Tag("C04", PosViolState(R.st, asg2, c) \cup PosViolGone(R.st, asg2, qm2, c)) ELSE {})
                   \cup (IF call.op \in {"truncate", "delete", "restart"} /\ (executed \/ isRestart)
                         THEN Tag("C06", FilesViol(R, c, attr2, w0file)) ELSE {})
-         obs == ObsOf(R)
+         \* the file set itself is not compared across runs (the order in which a GC pass records the empty
+         \* queues shifts the cursor by a few bytes from run to run); whether files are RECLAIMED as C06 demands is
+         c06v == IF ~fatal /\ call.op \in {"truncate", "delete", "restart"} /\ (executed \/ isRestart)
+                 THEN FilesViol(R, c, attr2, w0file) ELSE {}
+         obs == ObsOf(R) @@ [c06 |-> c06v]
          V14 == IF c.c14 = 2 /\ ~c.sub THEN
                    IF c.step + 1 > Len(refObs) THEN {<<"C14", "run longer than its reference run">>}
-                   ELSE IF refObs[c.step + 1] # obs THEN {<<"C14", "result or state differs from the same call under another policy">>}
+                   ELSE IF [x \in DOMAIN refObs[c.step + 1] \ {"c06"} |-> refObs[c.step + 1][x]] # ObsOf(R)
+                        THEN {<<"C14", "result or state differs from the same call under another policy">>}
+                   ELSE IF refObs[c.step + 1].c06 # c06v
+                        THEN {<<"C14", "reclamation of WAL files differs from the same call under another policy">>}
                    ELSE {}
                 ELSE {}
          V == Lift(c, V0 \cup V14)
@@ -444,7 +463,8 @@ TrEnd ==
         /\ ctx' = IF fatal THEN [c EXCEPT !.dead = TRUE, !.cur = NoCall]
                   ELSE LET c1 == [c EXCEPT !.qm = qm2, !.asg = asg2, !.cur = NoCall, !.attr = attr2,
                                            !.pendP = newPend(@, "process"), !.pendW = newPend(@, "power"),
-                                           !.batches = IF executed /\ call.op = "append" THEN Append(@, BatchOf(c.qm, call)) ELSE @,
+                                           !.batches = IF executed /\ call.op = "append" THEN Append(@, BatchOf(c.qm, call))
+                                                       ELSE IF executed THEN TruncBatches(@, call) ELSE @,
                                            !.step = @ + 1]
                        IN IF hasSt THEN WithPrev(c1, R.st) ELSE c1
   /\ UNCHANGED saved
@@ -470,7 +490,8 @@ TrCrash ==
                                    !.pendP = << [st |-> x, op |-> NoCall] >>, !.pendW = << [st |-> x, op |-> NoCall] >>,
                                    !.crashfree = FALSE, !.sub = TRUE, !.subprops = props,
                                    !.batches = IF incall /\ c.cur.op = "append" /\ ~IsRejectOrNoop(c.qm, c.cur)
-                                               THEN Append(@, BatchOf(c.qm, c.cur)) ELSE @]
+                                               THEN Append(@, BatchOf(c.qm, c.cur))
+                                               ELSE IF incall THEN TruncBatches(@, c.cur) ELSE @]
               IN /\ saved' = c
                  /\ ctx' = WithPrev(sub, R.st)
            ELSE UNCHANGED <<ctx, saved>>
